@@ -467,3 +467,172 @@ theorem schema_refs_closed_general (F : Facts07) (e : Enum) (he : e.Valid) (I : 
     exact elemDefined_of_complex I d tags trace hw hf' hdecl i (hf'.graph i hg) hk
 
 end SpyneModel.Wsdl
+
+namespace SpyneModel.Wsdl
+open SpyneModel
+
+/-! ## `soap:header/@part` -/
+
+/-- `add_messages_for_methods` as a fold of `_add_message_for_object` over the requests -/
+def reqLoop (I : IState) (rs : List (String × List Nat)) (a : MAcc) : MAcc :=
+  rs.foldl (fun a r => addMessage I r.2 r.1 a) a
+
+theorem reqLoop_append (I : IState) (r1 r2 : List (String × List Nat)) (a : MAcc) :
+    reqLoop I (r1 ++ r2) a = reqLoop I r2 (reqLoop I r1 a) := by
+  simp [reqLoop, List.foldl_append]
+
+theorem faultMsgLoop_eq (I : IState) (fs : List Nat) (a : MAcc) :
+    faultMsgLoop I fs a = reqLoop I (fs.map (fun f => ((I.cls f).tn, [f]))) a := by
+  induction fs generalizing a with
+  | nil => rfl
+  | cons f fs ih => simp only [faultMsgLoop, ih, reqLoop, List.map_cons, List.foldl_cons]
+
+theorem messagesLoop_eq (I : IState) (ms : List Meth) (a : MAcc) :
+    messagesLoop I ms a = reqLoop I (ms.flatMap (requestsOf I)) a := by
+  induction ms generalizing a with
+  | nil => rfl
+  | cons m ms ih =>
+    simp only [messagesLoop, List.flatMap_cons, reqLoop_append, ih, faultMsgLoop_eq, requestsOf]
+    congr 1
+    cases hi : m.inHeader <;> cases ho : m.outHeader <;>
+      simp [reqLoop, addHeaderMessage, List.foldl_append]
+
+/-- every message comes from a request, and every request has a message of its name -/
+theorem reqLoop_spec (I : IState) (all : List (String × List Nat)) (rs : List (String × List Nat))
+    (hsub : ∀ r ∈ rs, r ∈ all) (a : MAcc)
+    (ha : ∀ msg ∈ a.1, ∃ r ∈ all, msg = ⟨r.1, partsOf I r.2⟩) :
+    (∀ msg ∈ (reqLoop I rs a).1, ∃ r ∈ all, msg = ⟨r.1, partsOf I r.2⟩) ∧
+    (∀ r ∈ rs, r.1 ∈ mnames (reqLoop I rs a)) ∧ (∀ x ∈ mnames a, x ∈ mnames (reqLoop I rs a)) := by
+  induction rs generalizing a with
+  | nil => exact ⟨ha, (fun r hr => by cases hr), (fun x hx => hx)⟩
+  | cons r rs ih =>
+    have ha' : ∀ msg ∈ (addMessage I r.2 r.1 a).1, ∃ r' ∈ all, msg = ⟨r'.1, partsOf I r'.2⟩ := by
+      intro msg hmsg
+      unfold addMessage at hmsg
+      split at hmsg
+      · exact ha msg hmsg
+      · rcases List.mem_append.mp hmsg with h | h
+        · exact ha msg h
+        · simp only [List.mem_singleton] at h
+          exact ⟨r, hsub r List.mem_cons_self, h⟩
+    obtain ⟨h1, h2, h3⟩ := ih (fun r' hr' => hsub r' (List.mem_cons_of_mem _ hr')) (addMessage I r.2 r.1 a) ha'
+    refine ⟨h1, ?_, fun x hx => h3 x (addMessage_mono I _ _ a x hx)⟩
+    intro r' hr'
+    rcases List.mem_cons.mp hr' with rfl | hr'
+    · exact h3 _ (addMessage_has I _ _ a)
+    · exact h2 r' hr'
+
+/-- the message a request names has the parts of that request -/
+theorem request_message (I : IState) (hc : ∀ r1 ∈ I.requests, ∀ r2 ∈ I.requests, r1.1 = r2.1 → partsOf I r1.2 = partsOf I r2.2)
+    (r : String × List Nat) (hr : r ∈ I.requests) :
+    ∃ msg ∈ (messagesOf I).1, msg.name = r.1 ∧ msg.parts = partsOf I r.2 := by
+  have hs := reqLoop_spec I I.requests I.requests (fun _ h => h) ([], []) (fun msg h => by cases h)
+  have he : messagesOf I = reqLoop I I.requests ([], []) := messagesLoop_eq I (allMethods I) ([], [])
+  rw [← he] at hs
+  obtain ⟨h1, h2, _⟩ := hs
+  obtain ⟨msg, hmsg, hn⟩ := List.mem_map.mp (h2 r hr)
+  obtain ⟨r', hr', rfl⟩ := h1 msg hmsg
+  exact ⟨_, hmsg, hn, hc r' hr' r hr hn⟩
+
+theorem header_request_mem (I : IState) (m : Meth) (hm : m ∈ allMethods I) (hs : List Nat) (sfx : String)
+    (h : (m.inHeader = some hs ∧ sfx = "InHeaderMsg") ∨ (m.outHeader = some hs ∧ sfx = "OutHeaderMsg")) :
+    (headerMsgName I m hs sfx, hs) ∈ I.requests := by
+  refine List.mem_flatMap.mpr ⟨m, hm, ?_⟩
+  simp only [requestsOf, List.mem_append, List.mem_cons, List.not_mem_nil, or_false]
+  rcases h with ⟨h1, rfl⟩ | ⟨h1, rfl⟩
+  · left; left; right; rw [h1]; simp
+  · left; right; rw [h1]; simp
+
+/-- **every `soap:header/@part` names a part of the message the header refers to** -/
+theorem header_parts_general (F : Facts07) (e : Enum) (I : IState) (url : String) (d : Doc)
+    (h : gen F e I url = .ok d) (hwf : I.wf = true) : ∀ bh ∈ d.headerRefs, d.headerPartOk bh = true := by
+  obtain ⟨schemas, tr, _, rfl⟩ := gen_ok F e I url d h
+  have hw := wf_unpack I hwf
+  intro bh hbh
+  simp only [Doc.headerRefs, List.mem_flatMap] at hbh
+  obtain ⟨b, hb, o, ho, hbh⟩ := hbh
+  have hfrom := bindingsLoop_from F I (allMethods I) I.services
+    (fun s hs m hm => mem_allMethods I s hs m hm) ⟨[], false, []⟩ (fun b hb => by cases hb)
+  obtain ⟨m, hm, rfl⟩ := hfrom b hb o ho
+  have mp := wfMeth_unpack I m (hw.meth m hm)
+  have key : ∀ (hs : List Nat) (sfx : String) (x : Nat), x ∈ hs →
+      ((m.inHeader = some hs ∧ sfx = "InHeaderMsg") ∨ (m.outHeader = some hs ∧ sfx = "OutHeaderMsg")) →
+      (Doc.headerPartOk ⟨(touchAll (Prefs.init I) tr).nsmap,
+        (touchAll (touchAll (Prefs.init I) tr)
+          ((messagesOf I).2 ++ (portTypesOf F I (stripWsdl url)).trace ++ (bindingsOf F I).trace)).prefmap,
+        I.tns, I.name, schemas, (messagesOf I).1, (portTypesOf F I (stripWsdl url)).services,
+        (portTypesOf F I (stripWsdl url)).portTypes, (bindingsOf F I).bindings⟩
+        ⟨⟨headerRefNs F I x, headerMsgName I m hs sfx⟩, (I.cls x).tn⟩) = true := by
+    intro hs sfx x hx hcase
+    obtain ⟨msg, hmsg, hn, hp⟩ := request_message I hw.consistent _ (header_request_mem I m hm hs sfx hcase)
+    have hpl : (I.cls x).subName = none ∧ (I.cls x).wsdlPart = none := by
+      apply mp.plain
+      rcases hcase with ⟨h1, _⟩ | ⟨h1, _⟩
+      · exact List.mem_append_left _ (by rw [h1]; exact hx)
+      · exact List.mem_append_right _ (by rw [h1]; exact hx)
+    simp only [Doc.headerPartOk, List.any_eq_true, Bool.and_eq_true, beq_iff_eq]
+    refine ⟨msg, hmsg, hn, ?_⟩
+    rw [hp]
+    refine ⟨⟨(I.cls x).wsdlPart.getD (I.cls x).elemName, elemQN I.tns (I.cls x)⟩,
+      List.mem_map.mpr ⟨x, hx, rfl⟩, ?_⟩
+    simp [hpl.1, hpl.2, Cls.elemName]
+  simp only [mkBOp, List.mem_append] at hbh
+  rcases hbh with hbh | hbh
+  · cases hh : m.inHeader with
+    | none => rw [hh] at hbh; simp [bHeaders] at hbh
+    | some hs =>
+      rw [hh] at hbh
+      simp only [bHeaders, List.mem_map] at hbh
+      obtain ⟨x, hx, rfl⟩ := hbh
+      exact key hs "InHeaderMsg" x hx (Or.inl ⟨hh, rfl⟩)
+  · cases hh : m.outHeader with
+    | none => rw [hh] at hbh; simp [bHeaders] at hbh
+    | some hs =>
+      rw [hh] at hbh
+      simp only [bHeaders, List.mem_map] at hbh
+      obtain ⟨x, hx, rfl⟩ := hbh
+      exact key hs "OutHeaderMsg" x hx (Or.inr ⟨hh, rfl⟩)
+
+end SpyneModel.Wsdl
+
+namespace SpyneModel.Wsdl
+open SpyneModel
+
+/-! ## `add_method`: the namespace of declared faults -/
+
+theorem getD_map_range {α : Type} (n i : Nat) (g : Nat → α) (d : α) (h : i < n) :
+    ((List.range n).map g).getD i d = g i := by
+  simp [List.getD_eq_getElem?_getD, List.getElem?_map, List.getElem?_range h]
+
+theorem addMethodFaults_forced (F : Facts07) (hF : F.faultNs = .forcedTns) (I : IState) :
+    (I.addMethodFaults F).tns = I.tns ∧ (I.addMethodFaults F).services = I.services ∧
+    (I.addMethodFaults F).deps = I.deps ∧ (I.addMethodFaults F).classes.length = I.classes.length ∧
+    ∀ f, f < I.classes.length → f ∈ I.faultIds → ((I.addMethodFaults F).cls f).ns = I.tns := by
+  simp only [IState.addMethodFaults, hF]
+  refine ⟨trivial, trivial, trivial, by simp, ?_⟩
+  intro f hf hm
+  simp only [IState.cls]
+  rw [getD_map_range _ _ _ _ hf]
+  simp [hm]
+
+/-- after `add_method` every declared fault is in the target namespace: the contract's fault clause holds -/
+theorem wf_of_core_forced (F : Facts07) (hF : F.faultNs = .forcedTns) (I : IState)
+    (h : (I.addMethodFaults F).wfCore = true) : (I.addMethodFaults F).wf = true := by
+  obtain ⟨h1, h2, h3, h4, h5⟩ := addMethodFaults_forced F hF I
+  have hcore := h
+  simp only [IState.wf, h, Bool.true_and, IState.faultsTns, List.all_eq_true, beq_iff_eq]
+  intro m hm f hf
+  have hm' : m ∈ allMethods I := by simpa [allMethods, h2] using hm
+  -- the fault is a class of the graph, hence of the table
+  simp only [IState.wfCore, Bool.and_eq_true, List.all_eq_true, decide_eq_true_eq] at hcore
+  obtain ⟨⟨⟨⟨⟨⟨⟨⟨⟨⟨_, hg⟩, hmeth⟩, _⟩, _⟩, _⟩, _⟩, _⟩, _⟩, _⟩, _⟩ := hcore
+  have hwm := hmeth m hm
+  simp only [IState.wfMeth, Bool.and_eq_true, List.all_eq_true, List.contains_eq_mem, decide_eq_true_eq] at hwm
+  obtain ⟨⟨⟨⟨hh, _⟩, _⟩, _⟩, _⟩ := hwm
+  have hfg := (hh f (List.mem_append_right _ hf)).1
+  have hlt := hg f hfg
+  rw [h4] at hlt
+  rw [h1]
+  exact h5 f hlt (List.mem_flatMap.mpr ⟨m, hm', hf⟩)
+
+end SpyneModel.Wsdl
